@@ -102,53 +102,70 @@ def check(rec):
         if not kind.startswith("lock."):
             continue
         name = ev[5]
-        st = locks.setdefault(name, {"holder": None, "depth": 0, "waiting": [], "req": {},
-                                     "req_time": {}})
+        st = locks.setdefault(name, {"holder": None, "depth": 0, "waiting": [], "since": None})
+        # model: the lock belongs to the first who asked while it was free and to the longest
+        # waiting contender when it is given up; ``depth`` counts the blocks the owner is inside
+        # (0: designated owner that has not got its turn yet)
+
+        def pass_on():
+            st["depth"] = 0
+            if st["waiting"]:
+                st["holder"], st["since"] = st["waiting"].pop(0), now
+            else:
+                st["holder"], st["since"] = None, None
+
         if kind == "lock.req":
-            st["req"][actor] = act
-            st["req_time"][actor] = now
-            if st["holder"] is not None and st["holder"] != actor or \
-                    (st["holder"] is None and st["waiting"]):
+            if st["holder"] is None:
+                st["holder"], st["since"] = actor, now
+            elif st["holder"] != actor:
                 st["waiting"].append(actor)
         elif kind == "lock.enter":
-            if st["holder"] is not None and st["holder"] != actor:
-                bad("mutex", "%s entered %s at tick %d while %s is inside"
-                    % (actor, name, tick, st["holder"]))
-            if actor in st["waiting"]:
-                ahead = st["waiting"][:st["waiting"].index(actor)]
-                overtaken = [w for w in ahead if not excused(w, tick)]
-                if overtaken:
+            holder = st["holder"]
+            if holder != actor:
+                if holder is not None and st["depth"] > 0:
+                    bad("mutex", "%s entered %s at tick %d while %s is inside"
+                        % (actor, name, tick, holder))
+                elif holder is not None and not excused(holder, tick):
                     bad("fifo", "%s obtained %s before %s who asked earlier"
-                        % (actor, name, overtaken))
-                st["waiting"].remove(actor)
-            else:
-                if st["req_time"].get(actor) != now:
-                    bad("waited-for-free-lock",
-                        "%s asked for %s at t=%r while it was %s but entered only at t=%r"
-                        % (actor, name, st["req_time"].get(actor),
-                           "its own" if st["holder"] == actor else "free", now))
-            st["holder"] = actor
+                        % (actor, name, [holder]))
+                else:
+                    ahead = st["waiting"][:st["waiting"].index(actor)] \
+                        if actor in st["waiting"] else []
+                    overtaken = [w for w in ahead if not excused(w, tick)]
+                    if overtaken:
+                        bad("fifo", "%s obtained %s before %s who asked earlier"
+                            % (actor, name, overtaken))
+                if actor in st["waiting"]:
+                    st["waiting"].remove(actor)
+                st["holder"], st["since"], st["depth"] = actor, now, 0
+            elif st["depth"] == 0 and st["since"] != now and not excused(actor, tick):
+                bad("waited-for-free-lock",
+                    "%s was entitled to %s since t=%r but entered only at t=%r"
+                    % (actor, name, st["since"], now))
             st["depth"] += 1
         elif kind == "lock.leave":
-            if st["holder"] != actor:
-                bad("leave-by-non-owner", "%s leaves %s held by %s" % (actor, name, st["holder"]))
-            st["depth"] -= 1
-            if st["depth"] <= 0:
-                st["depth"] = 0
-                st["holder"] = None
+            if st["holder"] != actor or st["depth"] <= 0:
+                bad("leave-by-non-owner", "%s leaves %s held by %s (depth %d)"
+                    % (actor, name, st["holder"], st["depth"]))
+            else:
+                st["depth"] -= 1
+                if st["depth"] == 0:
+                    pass_on()
         elif kind == "lock.abort":
             if actor in st["waiting"]:
                 st["waiting"].remove(actor)
+            elif st["holder"] == actor and st["depth"] == 0:
+                pass_on()             # designated owner torn down before its turn
             if not excused(actor, tick):
                 bad("abort-without-fault", "%s failed to acquire %s: %r" % (actor, name, ev[6]))
         elif kind == "lock.avail":
             in_flight = any(excused(w, tick) for w in st["waiting"]) or \
                 (st["holder"] is not None and excused(st["holder"], tick)
                  and st["holder"] != actor)
-            expect = st["holder"] == actor or (st["holder"] is None and not st["waiting"])
+            expect = st["holder"] == actor or st["holder"] is None
             if ev[6] != expect and not in_flight:
-                bad("available", "%s sees %s.available=%r but holder=%r waiting=%r"
-                    % (actor, name, ev[6], st["holder"], st["waiting"]))
+                bad("available", "%s sees %s.available=%r but owner=%r (depth %d) waiting=%r"
+                    % (actor, name, ev[6], st["holder"], st["depth"], st["waiting"]))
     # liveness / fate of every contender
     for spec in rec.case["scenario"]["actors"]:
         actor = spec["name"]
